@@ -266,4 +266,43 @@ Proof.
   - constructor.
 Qed.
 
+(** from_iter: indices 0, 1, ..., n-1 in input order *)
+Lemma index_children_cidx l i :
+  0 <= i -> i + Z.of_nat (length l) <= wmod P ->
+  map cidx (index_children P l i) = map (fun k => i + Z.of_nat k) (seq 0 (length l)).
+Proof.
+  revert i. induction l as [|c l IH]; intros i Hi Hb; simpl; auto.
+  f_equal; [lia|].
+  destruct l as [|c' l']; [reflexivity|].
+  assert (Hw : winc P i = i + 1).
+  { unfold winc. apply Z.mod_small. simpl length in Hb. lia. }
+  rewrite Hw, IH by (simpl length in *; lia).
+  rewrite <- seq_shift, map_map. apply map_ext. intros k. lia.
+Qed.
+
+Lemma run_of_from_list cs : run_of (sm_from_list cs) = map cidx cs.
+Proof. unfold run_of, sm_from_list. simpl. induction cs; simpl; auto. rewrite IHcs. reflexivity. Qed.
+
+Theorem fob_from_list_order l w :
+  Z.of_nat (length l) < msb P -> fob_oinv (fst (fob_from_list P l w)).
+Proof.
+  intros Hlen. pose proof (@wmod_2msb P HW2) as Hw. pose proof (@msb_pos P HW2) as Hm.
+  unfold fob_from_list, fub_from_list.
+  destruct (alloc_block _ _) as [b w1]. unfold fob_oinv. simpl.
+  rewrite run_of_from_list.
+  assert (Hil : forall l0 i, length (index_children P l0 i) = length l0) by (induction l0; simpl; intros; auto).
+  rewrite index_children_cidx by lia.
+  assert (Hheld : held (map (fun k => 0 + Z.of_nat k) (seq 0 (length l)))
+                       {| oheap := []; hcap := 0; nin := Z.of_nat (length l) mod wmod P; nout := 0 |}
+                  = zseq (length l)).
+  { unfold held, hidx. simpl. rewrite app_nil_r. unfold zseq. apply map_ext. intros; lia. }
+  constructor; rewrite ?Hheld; simpl; rewrite ?zseq_length.
+  - lia.
+  - reflexivity.
+  - apply Forall_forall. intros x Hx. apply zseq_In in Hx. lia.
+  - exact Hlen.
+  - unfold off. simpl. rewrite (map_ext_in _ (fun x => x)); [rewrite map_id; apply Permutation_refl|].
+    intros x Hx. apply zseq_In in Hx. rewrite Z.sub_0_r. apply Z.mod_small. lia.
+Qed.
+
 End WithParams.
